@@ -27,6 +27,7 @@ ASSUMPTIONS = [
     'TopologicalSorter without constraints keeps insertion order (predicate names, accept order) -- validated by the observed order values',
     'set iteration order in sort_accept_offers is irrelevant when offers have distinct sort keys (generator keeps them distinct)',
     'custom / third-party predicates are pure truth tables over the request; predicate string values are latin-1, physical-path names plain',
+    'a third-party predicate with an empty phash text (pseudo-predicate) is generated only in a slot of its own',
     'request_type= and the deprecated effective_principals= predicates are not covered',
 ]
 TRUSTED = [
@@ -129,11 +130,19 @@ def gen_view(rng, tag, routes, third, focus):
             'perm': rng.random() < 0.12, 'tag': tag}
 
 
+CTX_PATHS = {'A': [['a'], ['a', 'b'], ['a', 'b', 'c'], ['u', 'i'], ['u', 'c']], 'B': [['a', 'b'], ['a', 'b', 'c'], ['u', 'c']],
+             'C': [['a', 'b', 'c'], ['u', 'c']], 'U': [['u']], 'I': [['u', 'i']], 'Root': [[]], None: PATHS}
+
+
 def gen_request(rng, case):
     views = case['views']
-    vname = rng.choice([v['name'] for v in views] * 3 + VNAMES)
+    target = rng.choice(views)                      # aim most requests at a registered view
+    aimed = rng.random() < 0.7
+    vname = target['name'] if aimed else rng.choice([v['name'] for v in views] * 3 + VNAMES)
     route = None
-    if case['routes'] and rng.random() < 0.45:
+    if aimed and target['route'] is not None and rng.random() < 0.9:
+        route = target['route']
+    elif case['routes'] and rng.random() < 0.35:
         route = rng.choice(case['routes'])['name']
     qs, post = [], []
     for _ in range(rng.choice([0, 0, 1, 1, 2, 3])):
@@ -147,8 +156,16 @@ def gen_request(rng, case):
         method = 'POST'
     return {'method': method, 'qs': qs, 'post': post, 'headers': headers, 'xhr': rng.random() < 0.35,
             'accept': rng.choice(ACCEPT_HEADERS), 'route': route, 'mp': rng.choice(['1', '1', '2', ' 1']),
-            'path': rng.choice(PATHS), 'vname': vname, 'user': rng.random() < 0.4,
+            'path': rng.choice(CTX_PATHS[target['ctx']] if aimed else PATHS), 'vname': vname, 'user': rng.random() < 0.4,
             'truth': sorted(rng.sample(range(10), rng.choice([0, 2, 4, 5, 7, 10])))}
+
+
+def _empty_phash(v):
+    return any(n in v['preds'] and v['preds'][n][1] == '' for n in ('zthird', 'ythird'))
+
+
+def _shares_slot(v, views):
+    return sum(1 for w in views if (w['ctx'], w['name'], w['route']) == (v['ctx'], v['name'], v['route'])) > 1
 
 
 def gen_case(rng):
@@ -166,6 +183,11 @@ def gen_case(rng):
             v = dict(o, tag=t, perm=(rng.random() < 0.45))
             need.add(t - 1)
         views.append(v)
+    for v in views:                               # an empty phash text (a pseudo-predicate) only where the slot is not shared
+        if _empty_phash(v) and _shares_slot(v, views):
+            for n in ('zthird', 'ythird'):
+                if n in v['preds']:
+                    v['preds'][n] = [v['preds'][n][0], v['preds'][n][1] or 't3']
     commits = None                                # None: autocommit, one commit per add_view
     if rng.random() < 0.5:                        # else: 1-3 explicit commits
         commits = sorted(need | set(rng.sample(range(nv), rng.choice([0, 1, 2]))))
@@ -196,6 +218,8 @@ def valid(case):
         tags = [v['tag'] for v in case['views']]
         if len(set(tags)) != len(tags):
             return False
+        if any(_empty_phash(v) and _shares_slot(v, case['views']) for v in case['views']):
+            return False      # outside the property's quantifier: see NOTES.md (empty phash collides with "no predicates")
         for v in case['views']:
             if v['ctx'] not in CTXS or v['name'] not in VNAMES or not (v['route'] is None or v['route'] in rn):
                 return False
@@ -678,16 +702,7 @@ def spec_holds(case, obs, spec):
     declarative specification (Coq: spec_winners) allows; Not Found exactly when it allows none."""
     if spec is None or not (isinstance(obs, list) and len(obs) == 2 and len(obs[1]) == len(spec)):
         return None
-    ok = all(_fits(res, sp[0]) for res, sp in zip(obs[1], spec))
-    if not ok and os.environ.get('C03_LOCAL_KNOWN') == '1' and classify(case, obs, spec) in _local_open():
-        return None          # development switch only: findings.json not yet merged into known_findings.json
-    return ok
-
-
-def _local_open():
-    import json
-    with open(os.path.join(HERE, 'findings.json')) as f:
-        return {e['id'] for e in json.load(f)['findings'] if e['status'] == 'open'}
+    return all(_fits(res, sp[0]) for res, sp in zip(obs[1], spec))
 
 
 def _collision(case, obs):
